@@ -365,12 +365,15 @@ class timeout_with_mapper:
         if i == 0:
             s.gen += 1
             out.on_next(x)
-            try:
-                d = s.mapper(x)
-            except Exception as e:
-                s.term = True
-                out.on_error(e)
-                return
+            if s.mapper is None:
+                d = out.never()  # no mapper: "there is no due time after this element" - the timeout that is watched never fires
+            else:
+                try:
+                    d = s.mapper(x)
+                except Exception as e:
+                    s.term = True
+                    out.on_error(e)
+                    return
             out.dispose_previous()
             out.subscribe(d)
         elif i == 2:
